@@ -88,6 +88,9 @@ def build(rnd):
         # HTTP/2 peers with a small per-stream flow-control window that they reopen piecewise (bodies larger than the
         # window are sent in several rounds; the translation must still deliver every byte in order, then the end)
         "win": rnd.choice([None, None, None, 7, 20, 64]),
+        # fields an addon adds in the request hook (canonical spelling, as scripts write them)
+        "addon_fields": [list(rnd.choice(ADDON_FIELDS))
+                         for _ in range(rnd.choice([0, 0, 0, 1, 2]))] if pair in ("h2-h1", "h3-h1", "h2-h2") else [],
     }
 
 
@@ -147,7 +150,7 @@ def h2_request_headers(case):
     return hdrs + [tuple(f) for f in case["fields"]]
 
 
-def setup(client_alpn, stream=False):
+def setup(client_alpn, stream=False, add_fields=()):
     mctx = make_context(make_options(), transport="udp" if client_alpn == b"h3" else "tcp")
     if client_alpn:
         mctx.client.alpn = client_alpn
@@ -162,6 +165,9 @@ def setup(client_alpn, stream=False):
                 flows.append(f)
             if stream and hook.name == "requestheaders":
                 f.request.stream = True
+            if hook.name == ("requestheaders" if stream else "request"):  # a streamed request's head leaves at requestheaders
+                for n, v in add_fields:  # an addon adds fields, spelled the way people write them
+                    f.request.headers.add(n, v)
     d = h3peer.QuicDriver(mctx, http_layer.HttpLayer(mctx, http_layer.HTTPMode.regular), hook_policy=policy)
     return mctx, d, hooks, flows
 
@@ -204,7 +210,8 @@ def pump_peer(d, conn, p):
 
 
 def run_h2_client(case, server_kind, client_proto="h2"):
-    mctx, d, hooks, flows = setup(client_proto.encode(), stream=bool(case.get("stream")) and server_kind == "h1")
+    mctx, d, hooks, flows = setup(client_proto.encode(), stream=bool(case.get("stream")) and server_kind == "h1",
+                                  add_fields=[(bytes(n).decode(), bytes(v).decode()) for n, v in case.get("addon_fields") or []])
     servers = {}
     d.on_open = lambda conn: attach_server(d, conn, server_kind, servers, case.get("win"))
     if client_proto == "h2":
@@ -335,8 +342,11 @@ def check_h2_h1(case, ctx):
         ctx.fail("h2-h1:host-header-count", repr(hosts))
     elif hosts[0] != want_host[0]:
         ctx.fail("h2-h1:host-changed", "%r -> %r" % (want_host[0], hosts[0]))
-    sent_f = [tuple(x) for x in case["fields"]]
+    sent_f = [tuple(x) for x in case["fields"]] + [(bytes(n), bytes(v)) for n, v in case.get("addon_fields") or []]
     hop = named_by_connection(sent_f)
+    if sum(1 for n, v in m.fields if n.lower() == b"cookie") > 1:
+        # RFC 9113 8.2.3: several cookie fields MUST be concatenated into one before they enter an HTTP/1.1 connection
+        ctx.fail("h2-h1:several-cookie-lines", repr([(n, v) for n, v in m.fields if n.lower() == b"cookie"]))
     if end_to_end(m.fields, drop_host=True, hop=hop) != end_to_end(sent_f, drop_host=True):
         ctx.fail("h2-h1:fields-changed", "sent %r got %r" % (end_to_end(sent_f, drop_host=True), end_to_end(m.fields, drop_host=True, hop=hop)))
     if m.body != sent_body:
@@ -528,7 +538,7 @@ def check_h2_h2(case, ctx):
     for name, want in ((b":method", case["method"]), (b":path", case["path"]), (b":authority", case["authority"]), (b":scheme", case["scheme"])):
         if h.get(name) != want:
             ctx.fail("h2-h2:%s-changed" % name.decode()[1:], "%r -> %r" % (want, h.get(name)))
-    sent_f = [tuple(x) for x in case["fields"]]
+    sent_f = [tuple(x) for x in case["fields"]] + [(bytes(n), bytes(v)) for n, v in case.get("addon_fields") or []]
     if end_to_end(rec.headers, hop=named_by_connection(sent_f)) != end_to_end(sent_f):
         ctx.fail("h2-h2:fields-changed", "sent %r got %r" % (end_to_end(sent_f), end_to_end(rec.headers)))
     if rec.ended and rec.data != b"".join(case["body"]):
@@ -550,7 +560,12 @@ def check_h2_h2(case, ctx):
             ctx.fail("h2-h2:response-trailers-changed", repr(crec.trailers))
 
 
+ADDON_FIELDS = [(b"Cookie", b"z=26"), (b"cookie", b"y=25"), (b"X-Added", b"1"), (b"COOKIE", b"w=23"), (b"Accept", b"text/x")]
+
+
 def check_case(case, ctx):
+    # keep shrunk cases inside the domain: an addon only adds well-formed fields
+    case["addon_fields"] = [list(f) for f in case.get("addon_fields") or [] if (bytes(f[0]), bytes(f[1])) in ADDON_FIELDS]
     kinds = adv_kinds(case)
     if case["pair"] not in ("h2-h2", "h3-h3") or kinds:
         ctx.nt((case["pair"], tuple(sorted(kinds)), case["method"], case["path"], case["authority"], repr(case["fields"]), len(case["body"])),
